@@ -663,6 +663,31 @@ def r58(ctx: Ctx) -> RuleReport:
     self_in = any((isinstance(n, ast.List) and any(norm(e) == np_ for e in n.elts)) or
                   (isinstance(n, ast.Call) and isinstance(n.func, ast.Attribute) and n.func.attr == 'append' and n.args and norm(n.args[0]) == np_)
                   for n in walk_local(nf.node))
+    # ... but a node without a variable - the empty node "()" - is not a node of the graph: it must not contribute None to the variable set
+    vname = None
+    for n in walk_local(nf.node):
+        if isinstance(n, ast.Assign) and isinstance(n.targets[0], ast.Tuple) and len(n.targets[0].elts) == 2 and norm(n.value) == np_:
+            vname = norm(n.targets[0].elts[0])
+    if vname:
+        k7 = 'penman.tree:_nodes: the empty node (variable None) is not listed'
+        selfs = []
+        for n in walk_local(nf.node):
+            if isinstance(n, ast.List) and any(norm(e) == np_ for e in n.elts):
+                selfs.append(n)
+            if isinstance(n, ast.Call) and isinstance(n.func, ast.Attribute) and n.func.attr == 'append' and n.args and norm(n.args[0]) == np_:
+                selfs.append(n)
+        pmn = ctx.repo.parent_map(nf.node)
+        for sx in selfs:
+            par = pmn.get(id(sx))
+            guarded = False
+            if isinstance(par, ast.IfExp):
+                t_ = norm(par.test).replace(' ', '')
+                guarded = (t_ == f'{vname}isNone' and par.orelse is sx) or (t_ == f'{vname}isnotNone' and par.body is sx)
+            fxn = {(f.replace(' ', ''), pol) for f, pol in facts_ex(ctx, nf, sx)}
+            guarded = guarded or (f'{vname}isNone', False) in fxn or (f'{vname}isnotNone', True) in fxn
+            rep.add(k7, nf.loc(sx), 'ok' if guarded else 'violation',
+                    '' if guarded else f'`{norm(sx)[:40]}` lists the node whatever its variable: for a tree with "()" the variable set of interpret contains None, and None is also the target of a '
+                                       f'role written without a target - such a branch is then read as an edge to a node and its inverted role is turned round')
     loops = [n for n in walk_local(nf.node) if isinstance(n, ast.For)]
     rec_ok = False
     for lp in loops:
@@ -2573,4 +2598,131 @@ def r104(ctx: Ctx) -> RuleReport:
             else:
                 rep.ok(key_loop, fi.loc(loop))
     rep.analysed['loops'] = n_loops
+    return rep
+
+
+# ---------------------------------------------------------------------------------------------
+@rule('R106', 'a stream that the caller handed in is neither closed nor read in pieces of a fixed size')
+def r106(ctx: Ctx) -> RuleReport:
+    from ..cfg import reaching_defs
+    rep = RuleReport('R106', r106.title, floor=3)
+    for fi in ctx.repo.all_functions():
+        a = fi.node.args
+        streams = [x.arg for x in a.posonlyargs + a.args + a.kwonlyargs
+                   if x.annotation is not None and any(w in norm(x.annotation) for w in ('FileOrFilename', 'IO[', 'TextIO', 'Iterable[str]', 'Iterable[', 'Iterator['))
+                   or x.arg in ('fh', 'file', 'source', 'lines', 'f')]
+        if not streams:
+            continue
+        try:
+            cfg = CFG(fi.node)
+        except AnalysisError:
+            continue
+        rd = reaching_defs(cfg, fi.params)
+        pm = ctx.repo.parent_map(fi.node)
+        # aliases: x = <param> (plain copy)
+        alias_defs = {}
+        for n in walk_local(fi.node):
+            if isinstance(n, ast.Assign) and isinstance(n.targets[0], ast.Name) and isinstance(n.value, ast.Name) and n.value.id in streams:
+                alias_defs[cfg.node_of(n)] = (n.targets[0].id, n.value.id)
+
+        def may_be_param(name_node) -> Optional[str]:
+            if name_node.id in streams:
+                try:
+                    un = owner_node(cfg, pm, name_node)
+                except Exception:
+                    return None
+                if cfg.entry in rd.get(un, {}).get(name_node.id, frozenset()):
+                    return name_node.id
+            try:
+                un = owner_node(cfg, pm, name_node)
+            except Exception:
+                return None
+            for d in rd.get(un, {}).get(name_node.id, frozenset()):
+                if d in alias_defs and alias_defs[d][0] == name_node.id:
+                    return alias_defs[d][1]
+            return None
+        key = f'{fi.module.name}:{fi.qualname}: the stream(s) {streams} are left open and read line by line'
+        bad = None
+        for n in walk_local(fi.node):
+            if isinstance(n, (ast.With, ast.AsyncWith)):
+                for it in n.items:
+                    if isinstance(it.context_expr, ast.Name):
+                        p_ = may_be_param(it.context_expr)
+                        if p_:
+                            bad = (n, f'`with {it.context_expr.id}:` closes `{p_}` on exit - a stream that belongs to the caller (an open file, a StringIO whose getvalue() is read afterwards, sys.stdout)')
+            if isinstance(n, ast.Call) and isinstance(n.func, ast.Attribute) and isinstance(n.func.value, ast.Name):
+                p_ = may_be_param(n.func.value)
+                if p_ and n.func.attr == 'close':
+                    bad = (n, f'`{norm(n)}` closes `{p_}`, a stream that belongs to the caller')
+                if p_ and n.func.attr in ('readline', 'read', 'readlines') and (n.args or n.keywords):
+                    bad = (n, f'`{norm(n)[:50]}` reads `{p_}` in pieces of a fixed size: a line longer than that is handed to the lexer in two parts, so a token or a comment is cut in the middle')
+            if isinstance(n, ast.Attribute) and n.attr in ('readline', 'read') and isinstance(n.value, ast.Name) and isinstance(pm.get(id(n)), ast.Call) \
+                    and pm.get(id(n)).func is not n and norm(pm.get(id(n)).func) in ('partial', 'functools.partial') and len(pm.get(id(n)).args) > 1:
+                p_ = may_be_param(n.value)
+                if p_:
+                    bad = (n, f'`{norm(pm.get(id(n)))[:60]}` reads `{p_}` in pieces of a fixed size: a line longer than that is handed to the lexer in two parts')
+        if bad:
+            rep.violation(key, fi.loc(bad[0]), bad[1])
+        else:
+            rep.ok(key, fi.loc())
+    return rep
+
+
+# ---------------------------------------------------------------------------------------------
+@rule('R107', 'evaluate reports "unbalanced quotes" exactly when one end of the atom is a double quote and the other is not')
+def r107(ctx: Ctx) -> RuleReport:
+    from ..resolve import expand
+    rep = RuleReport('R107', r107.title, floor=1)
+    fi = ctx.repo.func('penman.constant', 'evaluate')
+    p = fi.positional[0]
+    raises = [n for n in walk_local(fi.node) if isinstance(n, ast.Raise) and n.exc is not None and 'unbalanced' in norm(n.exc).lower()]
+    pm = ctx.repo.parent_map(fi.node)
+    if not raises:
+        rep.undecided(f'{fi.fq}: an atom with a quote at one end only is rejected', fi.loc(), 'no raise mentioning unbalanced quotes')
+        return rep
+    for r in raises:
+        par = pm.get(id(r))
+        key = f'{fi.fq}: `{norm(r)[:50]}` is raised exactly when the two ends differ in being a double quote'
+        if not isinstance(par, ast.If) or r not in par.body:
+            rep.undecided(key, fi.loc(r), 'the raise is not the body of an if')
+            continue
+        test = expand(ctx, fi, par.test, par, pure_only=False)
+
+        class X(ast.NodeTransformer):
+            def visit_BinOp(self, n):
+                self.generic_visit(n)
+                if isinstance(n.op, ast.BitXor):
+                    a_, b_ = n.left, n.right
+                    return ast.BoolOp(op=ast.Or(), values=[ast.BoolOp(op=ast.And(), values=[a_, ast.UnaryOp(op=ast.Not(), operand=b_)]),
+                                                           ast.BoolOp(op=ast.And(), values=[ast.UnaryOp(op=ast.Not(), operand=a_), b_])])
+                return n
+
+            def visit_Compare(self, n):
+                self.generic_visit(n)
+                if len(n.ops) == 1 and isinstance(n.ops[0], (ast.NotEq, ast.IsNot)) and all(isinstance(x, ast.Call) for x in (n.left, n.comparators[0])):
+                    return X().visit(ast.BinOp(left=n.left, op=ast.BitXor(), right=n.comparators[0]))
+                return n
+        import copy as _cp
+        test = ast.fix_missing_locations(X().visit(_cp.deepcopy(test)))
+        ab = bn.Abstractor({})
+        try:
+            f_got = ab.formula(test)
+            A, B = f"{p}.startswith('\"')", f"{p}.endswith('\"')"
+            fa, fb = ab.formula(ast.parse(A, mode='eval').body), ab.formula(ast.parse(B, mode='eval').body)
+            names: List[str] = []
+            bn.atoms_of(f_got, names)
+            base: List[str] = []
+            bn.atoms_of(fa, base)
+            bn.atoms_of(fb, base)
+        except Exception as e:       # noqa
+            rep.undecided(key, fi.loc(r), f'condition not propositional: {e}')
+            continue
+        extra = [a_ for a_ in names if a_ not in base]
+        if extra:
+            rep.violation(key, fi.loc(par), f'the test also depends on `{extra[0]}`: for some atom with a quote at both ends (for instance one whose last character before the closing quote is a backslash, '
+                          f'as quote() writes for a string ending in a backslash) the string is rejected as unbalanced, or an unbalanced one is accepted')
+            continue
+        want = bn.mk_or([bn.mk_and([fa, bn.mk_not(fb)]), bn.mk_and([bn.mk_not(fa), fb])])
+        wit = bn.equivalent(f_got, want)
+        rep.add(key, fi.loc(par), 'ok' if wit is None else 'violation', '' if wit is None else f'the condition differs from (starts with a quote) xor (ends with a quote) for {wit}')
     return rep
